@@ -113,6 +113,28 @@ impl Report {
         self.sig_counts.iter().filter(|(k, _)| k.starts_with(&pre)).map(|(_, v)| *v).sum()
     }
 
+    #[allow(clippy::too_many_arguments)]
+    pub fn violation_p5_late(
+        &mut self,
+        ev: &crate::scan::Ev,
+        now: u64,
+        delta: u64,
+        a: Option<crate::scan::PnM>,
+        b: Option<crate::scan::PnM>,
+        timeout: u64,
+        path: &dyn Fn() -> Vec<String>,
+    ) {
+        crate::viol!(
+            self,
+            "C13:feed-effect-depends-on-time",
+            format!(
+                "after feed({}) at t={} a very late poll returned {:?}, but {:?} when the same scanner state was fed {} ns later (the passage of time changed what the feed did)",
+                ev.render(), now, a, b, delta
+            ),
+            crate::scan::history_json("polling", Some(timeout), path, json!(format!("{:?}", a)), json!(format!("{:?}", b)))
+        );
+    }
+
     pub fn inconclusive(&mut self, why: impl Into<String>) {
         let w = why.into();
         if !self.inconclusive.contains(&w) {
